@@ -203,9 +203,16 @@ impl Check for C01 {
 		Level::Exploration
 	}
 	fn num_cases(&self, _tier: Tier) -> u64 {
-		f1_cases() + fx_cases() + f2_cases() + f3_cases() + 1 + F6_EFFECTS.len() as u64
+		f1_cases() + fx_cases() + f2_cases() + f3_cases() + 1 + F6_EFFECTS.len() as u64 + 1 + 2
 	}
 	fn describe(&self, tier: Tier, idx: u64) -> String {
+		if idx > f1_cases() + fx_cases() + f2_cases() + f3_cases() + 1 + F6_EFFECTS.len() as u64 {
+			let j = idx - (f1_cases() + fx_cases() + f2_cases() + f3_cases() + 2 + F6_EFFECTS.len() as u64);
+			return format!("F8 the callback monitors under the create / remove race (shared with C08): E2 {}", super::c08::e2_name(super::c08::E2_CASES + super::c08::E2N_CASES + j));
+		}
+		if idx == f1_cases() + fx_cases() + f2_cases() + f3_cases() + 1 + F6_EFFECTS.len() as u64 {
+			return format!("F7 every public track-creation path {:?} x every built-in effect family x parent adopted / not yet adopted: the first callbacks of a new track's effects", F7_PATHS);
+		}
 		if idx > f1_cases() + fx_cases() + f2_cases() + f3_cases() {
 			return format!("F6 effect handle setters: {} - every parameter tweened between every ordered pair of its lattice values with tweens of 0, 1.5 and 6 internal buffers", F6_EFFECTS[(idx - f1_cases() - fx_cases() - f2_cases() - f3_cases() - 1) as usize]);
 		}
@@ -244,6 +251,12 @@ impl Check for C01 {
 		)
 	}
 	fn sig_hint(&self, _tier: Tier, idx: u64) -> String {
+		if idx > f1_cases() + fx_cases() + f2_cases() + f3_cases() + 1 + F6_EFFECTS.len() as u64 {
+			return "F8 create / remove race".into();
+		}
+		if idx == f1_cases() + fx_cases() + f2_cases() + f3_cases() + 1 + F6_EFFECTS.len() as u64 {
+			return "F7 creation paths".into();
+		}
 		if idx > f1_cases() + fx_cases() + f2_cases() + f3_cases() {
 			return format!("F6 {}", F6_EFFECTS[(idx - f1_cases() - fx_cases() - f2_cases() - f3_cases() - 1) as usize]);
 		}
@@ -266,13 +279,13 @@ impl Check for C01 {
 		"F3 history".into()
 	}
 	fn rule(&self) -> String {
-		"F1: {static, streaming} x length {0,1,2,5} x slice {none, empty, inner, inverted, beyond the data} x loop {none, whole, empty, inverted, beyond, end==len} x sound rate x start position {0,1,len-1,len,len+3} x reverse x rate {1,-1,0,0.5,3} x 18 handle commands with boundary arguments; FX: 14 extreme finite values (1e9, 1e300, +-1e12 s, +-1e30 dB, 1e15 samples) x {static, streaming}, one per case; F2: 9 effect families, each parameter at documented min / max / default / 0 / just outside, x sample rate {8000, 44100, 192000} x 5 input signals x callbacks {1, ibs, 2*ibs+1}, then the device rate changed to each of the other two rates and the same callbacks again; F3: all API histories to depth 4 (5) over 16 letters with all capacities 1, and with all capacities 0; F4: every depth-3 history with 1..8 channels (mono must be the mean of the stereo rendering, extra channels silent); F6: every setter of every built-in effect handle, value tweened between every ordered pair of a 3..4-point lattice (increasing and decreasing) with tweens of 0 / 1.5 / 6 internal buffers; F5: the output stage alone: DC frames (l, r) over {0, +-0.5, +-1.5, +-3e38}^2 x volume {0, +20, +1000 dB} x 1..8 channels. Oracle = the callback monitors. non-trivial = callbacks that produced non-silent audio or ran after at least one command".into()
+		"F1: {static, streaming} x length {0,1,2,5} x slice {none, empty, inner, inverted, beyond the data} x loop {none, whole, empty, inverted, beyond, end==len} x sound rate x start position {0,1,len-1,len,len+3} x reverse x rate {1,-1,0,0.5,3} x 18 handle commands with boundary arguments; FX: 14 extreme finite values (1e9, 1e300, +-1e12 s, +-1e30 dB, 1e15 samples) x {static, streaming}, one per case; F2: 9 effect families, each parameter at documented min / max / default / 0 / just outside, x sample rate {8000, 44100, 192000} x 5 input signals x callbacks {1, ibs, 2*ibs+1}, then the device rate changed to each of the other two rates and the same callbacks again; F3: all API histories to depth 4 (5) over 16 letters with all capacities 1, and with all capacities 0; F4: every depth-3 history with 1..8 channels (mono must be the mean of the stereo rendering, extra channels silent); F6: every setter of every built-in effect handle, value tweened between every ordered pair of a 3..4-point lattice (increasing and decreasing) with tweens of 0 / 1.5 / 6 internal buffers; F8: E2 long race game(3 creates of resources that are removable at once) || audio(4 callbacks) for sounds and sub-tracks at capacity 1; F7: 8 public track-creation paths x 9 effect families x {parent adopted, parent created in the same interval} with a sound on the new track, 3 callbacks; F5: the output stage alone: DC frames (l, r) over {0, +-0.5, +-1.5, +-3e38}^2 x volume {0, +20, +1000 dB} x 1..8 channels. Oracle = the callback monitors. non-trivial = callbacks that produced non-silent audio or ran after at least one command".into()
 	}
 	fn assumptions(&self) -> Vec<String> {
 		vec![
 			"'promptly' is decided as: the callback returns within 2 s for <= 16 frames (watchdog), performs no allocation / free; wall-clock latency itself is not measured".into(),
 			"a panic raised on the caller's thread by a builder / play() for an invalid argument is not a C01 verdict (counted as caller_thread_panics)".into(),
-			"the interleavings of calls with callbacks are explored under C07/C08 (E2); here calls happen between callbacks".into(),
+			"the interleavings of calls with callbacks are explored under C07/C08 (E2); here calls happen between callbacks, except F8: the long create / remove race of C08 (3 creates || 4 callbacks, preemption bound 2 / 3, free switches between operations) run under the callback monitors".into(),
 		]
 	}
 	fn extra_evidence(&self, _tier: Tier) -> Vec<(String, J)> {
@@ -282,7 +295,23 @@ impl Check for C01 {
 		// (a case normally takes a second or two; a change that makes a decoder thread or a callback spin costs one limit per case)
 		tier.pick(45_000, 300_000)
 	}
+	fn case_timeout_ms_for(&self, tier: Tier, idx: u64) -> u64 {
+		// F8 is an exploration of tens of thousands of schedules
+		if idx > f1_cases() + fx_cases() + f2_cases() + f3_cases() + 1 + F6_EFFECTS.len() as u64 {
+			return 900_000;
+		}
+		self.case_timeout_ms(tier)
+	}
 	fn run_case(&self, tier: Tier, idx: u64, ctx: &mut Ctx) {
+		if idx > f1_cases() + fx_cases() + f2_cases() + f3_cases() + 1 + F6_EFFECTS.len() as u64 {
+			// capacity 1: sounds on the main track, sub-tracks
+			super::c08::e2_long(tier, idx - (f1_cases() + fx_cases() + f2_cases() + f3_cases() + 2 + F6_EFFECTS.len() as u64), ctx);
+			return;
+		}
+		if idx == f1_cases() + fx_cases() + f2_cases() + f3_cases() + 1 + F6_EFFECTS.len() as u64 {
+			f7(ctx);
+			return;
+		}
 		if idx > f1_cases() + fx_cases() + f2_cases() + f3_cases() {
 			f6((idx - f1_cases() - fx_cases() - f2_cases() - f3_cases() - 1) as usize, ctx);
 			return;
@@ -1063,6 +1092,147 @@ fn f5(ctx: &mut Ctx) {
 		}
 	}
 	ctx.outcome(hash64(&"f5"));
+}
+
+// ---------------------------------------------------------------------------------------------
+// F7: every public way of creating a track x every built-in effect family: the first callbacks of the new track
+
+const F7_PATHS: [&str; 8] = [
+	"MainTrackBuilder",
+	"AudioManager::add_sub_track",
+	"AudioManager::add_send_track",
+	"AudioManager::add_spatial_sub_track",
+	"TrackHandle::add_sub_track",
+	"TrackHandle::add_spatial_sub_track",
+	"SpatialTrackHandle::add_sub_track",
+	"SpatialTrackHandle::add_spatial_sub_track",
+];
+macro_rules! f7_fx {
+	($b:expr, $k:expr) => {
+		match $k {
+			0 => $b.with_effect(FilterBuilder::new()),
+			1 => $b.with_effect(EqFilterBuilder::new(EqFilterKind::Bell, 1000.0, Decibels(6.0), 1.0)),
+			2 => $b.with_effect(DelayBuilder::new()),
+			3 => $b.with_effect(DelayBuilder::new().delay_time(Duration::from_millis(1)).with_feedback_effect(ReverbBuilder::new()).with_feedback_effect(DelayBuilder::new())),
+			4 => $b.with_effect(ReverbBuilder::new()),
+			5 => $b.with_effect(CompressorBuilder::new()),
+			6 => $b.with_effect(DistortionBuilder::new()),
+			7 => $b.with_effect(VolumeControlBuilder::new(Decibels(-3.0))),
+			_ => $b.with_effect(PanningControlBuilder(Value::Fixed(Panning(0.3)))),
+		}
+	};
+}
+fn f7(ctx: &mut Ctx) {
+	let zero = mint::Vector3 { x: 0.0f32, y: 0.0, z: 1.0 };
+	let quat = mint::Quaternion { v: mint::Vector3 { x: 0.0f32, y: 0.0, z: 0.0 }, s: 1.0 };
+	for path in 0..F7_PATHS.len() {
+		for k in 0..F2_EFFECTS.len() {
+			for adopted in [true, false] {
+				if path == 0 && !adopted {
+					continue;
+				}
+				ctx.evals += 1;
+				let detail = || format!("a track created through {} carrying the effect family '{}' (default parameters), {}; a looping DC sound on it; callbacks of 1, 4 and 9 frames at 8000 Hz, internal buffer 4", F7_PATHS[path], F2_EFFECTS[k], if adopted { "its parent was adopted by the audio thread two callbacks earlier" } else { "its parent was created in the same interval" });
+				let r = catch(|| -> Result<(), String> {
+					let lim = |_| "resource limit".to_string();
+					let main = if path == 0 { f7_fx!(MainTrackBuilder::new(), k) } else { MainTrackBuilder::new() };
+					let mut m = rig::manager(SR3, 4, rig::caps(4), main);
+					let mut buf = vec![0.0f32; 32];
+					let mut keep: Vec<Box<dyn Any>> = vec![];
+					let listener = m.add_listener(zero, quat).map_err(lim)?;
+					let sound = || rig::static_data(SR3, rig::dc_frames(8, 0.25)).loop_region(Region::from(..));
+					let mut settle = |m: &mut Manager, ctx: &mut Ctx| -> bool {
+						if !adopted {
+							return true;
+						}
+						for _ in 0..2 {
+							let rep = rig::callback(m, &mut buf, 4, 2);
+							if !rep.ok() {
+								rig::report_cb(ctx, &rep, &format!("F7 {} x {}", F7_PATHS[path], F2_EFFECTS[k]), &detail);
+								return false;
+							}
+						}
+						true
+					};
+					match path {
+						0 => {
+							keep.push(Box::new(m.play(sound()).map_err(|_| "play")?));
+						}
+						1 => {
+							if !settle(&mut m, ctx) { return Ok(()); }
+							let mut t = m.add_sub_track(f7_fx!(TrackBuilder::new(), k)).map_err(lim)?;
+							keep.push(Box::new(t.play(sound()).map_err(|_| "play")?));
+							keep.push(Box::new(t));
+						}
+						2 => {
+							if !settle(&mut m, ctx) { return Ok(()); }
+							let s = m.add_send_track(f7_fx!(SendTrackBuilder::new(), k)).map_err(lim)?;
+							let mut t = m.add_sub_track(TrackBuilder::new().with_send(s.id(), Decibels::IDENTITY)).map_err(lim)?;
+							keep.push(Box::new(t.play(sound()).map_err(|_| "play")?));
+							keep.push(Box::new(t));
+							keep.push(Box::new(s));
+						}
+						3 => {
+							if !settle(&mut m, ctx) { return Ok(()); }
+							let mut t = m.add_spatial_sub_track(&listener, zero, f7_fx!(SpatialTrackBuilder::new(), k)).map_err(lim)?;
+							keep.push(Box::new(t.play(sound()).map_err(|_| "play")?));
+							keep.push(Box::new(t));
+						}
+						4 | 5 => {
+							let mut par = m.add_sub_track(TrackBuilder::new()).map_err(lim)?;
+							if !settle(&mut m, ctx) { return Ok(()); }
+							if path == 4 {
+								let mut t = par.add_sub_track(f7_fx!(TrackBuilder::new(), k)).map_err(lim)?;
+								keep.push(Box::new(t.play(sound()).map_err(|_| "play")?));
+								keep.push(Box::new(t));
+							} else {
+								let mut t = par.add_spatial_sub_track(&listener, zero, f7_fx!(SpatialTrackBuilder::new(), k)).map_err(lim)?;
+								keep.push(Box::new(t.play(sound()).map_err(|_| "play")?));
+								keep.push(Box::new(t));
+							}
+							keep.push(Box::new(par));
+						}
+						_ => {
+							let mut par = m.add_spatial_sub_track(&listener, zero, SpatialTrackBuilder::new()).map_err(lim)?;
+							if !settle(&mut m, ctx) { return Ok(()); }
+							if path == 6 {
+								let mut t = par.add_sub_track(f7_fx!(TrackBuilder::new(), k)).map_err(lim)?;
+								keep.push(Box::new(t.play(sound()).map_err(|_| "play")?));
+								keep.push(Box::new(t));
+							} else {
+								let mut t = par.add_spatial_sub_track(&listener, zero, f7_fx!(SpatialTrackBuilder::new(), k)).map_err(lim)?;
+								keep.push(Box::new(t.play(sound()).map_err(|_| "play")?));
+								keep.push(Box::new(t));
+							}
+							keep.push(Box::new(par));
+						}
+					}
+					let mut heard = false;
+					for n in [1usize, 4, 9] {
+						let rep = rig::callback(&mut m, &mut buf, n, 2);
+						if !rep.ok() {
+							rig::report_cb(ctx, &rep, &format!("F7 {} x {}", F7_PATHS[path], F2_EFFECTS[k]), &detail);
+							return Ok(());
+						}
+						heard |= buf[..2 * n].iter().any(|s| *s != 0.0);
+					}
+					if heard {
+						ctx.nontrivial_extra += 1;
+					}
+					drop(keep);
+					drop(listener);
+					Ok(())
+				});
+				match r {
+					Ok(Ok(())) => {}
+					Ok(Err(e)) => ctx.fail(format!("machinery: F7 scene could not be built: {}", e), detail()),
+					Err(p) => ctx.fail(format!("panic on the caller's thread: {} :: F7 {}", p, F7_PATHS[path]), detail()),
+				}
+				ctx.state(hash64(&("f7", path, k, adopted)));
+			}
+		}
+	}
+	ctx.outcome(hash64(&"f7"));
 }
 
 // ---------------------------------------------------------------------------------------------
